@@ -305,6 +305,7 @@ func RunnerMain() int {
 	type vkey struct{ world, rule, feature string }
 	unknown := map[vkey][]*RunResult{}
 	tainted := 0
+	crashSeen := map[string]bool{}
 	for _, o := range outs {
 		for key, n := range o.agg.Known {
 			parts := strings.SplitN(key, " ", 2)
@@ -347,10 +348,15 @@ func RunnerMain() int {
 						knownSeen[fmt.Sprintf("property=%s rule=%s feature=%s %s", c.prop, k.Rule, k.Feature, k.Text)]++
 						continue
 					}
-					fmt.Printf("VIOLATION property=%s replay=%s\n", c.prop, path)
-					fmt.Printf("  rule=process-crash feature=%s world=%s seed=%d\n", v.Feature, parts[0], seed)
 					violations++
 					exit = 1
+					if !crashSeen[v.Feature] { // one report per distinct crash
+						crashSeen[v.Feature] = true
+						fmt.Printf("VIOLATION property=%s replay=%s\n", c.prop, path)
+						fmt.Printf("  rule=process-crash feature=%s world=%s seed=%d\n", v.Feature, parts[0], seed)
+					} else {
+						os.Remove(path)
+					}
 					continue
 				}
 			}
